@@ -219,6 +219,32 @@ def showV : V → String
   | .undef => "undefined:undefined"
   | .null => "object:null"
 
+
+/-! ### 32-bit integer operators (ToInt32 / ToUint32 on the integers, exact) -/
+
+def two32 : Nat := 4294967296
+def two31 : Nat := 2147483648
+
+/-- ToUint32: NaN, the infinities and −0 give 0, an integer is reduced modulo 2^32 -/
+def toUint32 : Num → Nat
+  | .int z => (z % (two32 : Int)).toNat
+  | _ => 0
+
+/-- reinterpret an unsigned 32-bit value as signed -/
+def signed32 (u : Nat) : Int := if u < two31 then (u : Int) else (u : Int) - (two32 : Int)
+
+def toInt32 (n : Num) : Int := signed32 (toUint32 n)
+
+def bitAnd (a b : Num) : Num := .int (signed32 (toUint32 a &&& toUint32 b))
+def bitOr (a b : Num) : Num := .int (signed32 (toUint32 a ||| toUint32 b))
+def bitXor (a b : Num) : Num := .int (signed32 (toUint32 a ^^^ toUint32 b))
+def bitNot (a : Num) : Num := .int (-(toInt32 a) - 1)
+/-- the shift count is the low five bits of ToUint32 of the right operand -/
+def shiftCount (b : Num) : Nat := toUint32 b % 32
+def shl (a b : Num) : Num := .int (signed32 ((toUint32 a <<< shiftCount b) % two32))
+def sar (a b : Num) : Num := .int (Int.fdiv (toInt32 a) ((2 ^ shiftCount b : Nat) : Int))
+def shr (a b : Num) : Num := .int ((toUint32 a >>> shiftCount b : Nat) : Int)
+
 /-- every binary / unary operator of the model by its source spelling -/
 def binop (op : String) (a b : V) : Option V :=
   match op with
@@ -236,6 +262,12 @@ def binop (op : String) (a b : V) : Option V :=
   | "&&" => some (if toBoolean a then b else a)
   | "||" => some (if toBoolean a then a else b)
   | "??" => some (if a == .undef || a == .null then b else a)
+  | "&" => some (.num (bitAnd (toNumber a) (toNumber b)))
+  | "|" => some (.num (bitOr (toNumber a) (toNumber b)))
+  | "^" => some (.num (bitXor (toNumber a) (toNumber b)))
+  | "<<" => some (.num (shl (toNumber a) (toNumber b)))
+  | ">>" => some (.num (sar (toNumber a) (toNumber b)))
+  | ">>>" => some (.num (shr (toNumber a) (toNumber b)))
   | _ => none
 
 def unop (op : String) (a : V) : Option V :=
@@ -245,6 +277,7 @@ def unop (op : String) (a : V) : Option V :=
   | "+" => some (.num (toNumber a))
   | "typeof" => some (.str (typeOf a))
   | "void" => some .undef
+  | "~" => some (.num (bitNot (toNumber a)))
   | _ => none
 
 end TsrunVerif.Ops
